@@ -1,4 +1,5 @@
 """Helpers shared by the per-property checks."""
+import random
 import struct
 
 from .. import canon, diff, refcodec, refspec
@@ -6,6 +7,36 @@ from ..mon import boundary
 from ..mon.boundary import call
 
 ALL_INDEXES = sorted(refspec.METHODS)
+CONFIG = {}           # process configuration of this worker (set by worker)
+RECOVER_ASYNC = 0x003C0064
+
+
+def with_configs(shards, configs, take=2):
+    """Append copies of the first `take` shards, each run under another
+    process configuration: warnings escalated to errors (python -W error),
+    DEBUG logging with a formatting handler, python -O."""
+    out = list(shards)
+    for ci, cfg in enumerate(configs):
+        for s in shards[:take]:
+            c = dict(s)
+            c['name'] = '%s+%s' % (s['name'], '+'.join(
+                '%s=%s' % (k, v if not isinstance(v, list) else ''.join(v))
+                for k, v in sorted(cfg.items())))
+            c['config'] = cfg
+            out.append(c)
+    return out
+
+
+W_ERROR = {'warnings': 'error'}
+LOG_DEBUG = {'logging': 'debug'}
+PY_O = {'pyflags': ['-O']}
+
+
+def skip_under_config(index):
+    """Basic.RecoverAsync warns (DeprecationWarning) in its constructor by
+    design; with warnings escalated to errors that class cannot even be
+    constructed, so it is left out of those shards."""
+    return CONFIG.get('warnings') == 'error' and index == RECOVER_ASYNC
 
 
 def split(items, n):
@@ -85,3 +116,233 @@ def hexs(b, limit=600):
 
 def parse_header(data):
     return struct.unpack('>BHI', bytes(data[:7]))
+
+
+# --------------------------------------------------------------------------
+# fault-interleaved workloads
+#
+# A codec call must not depend on what happened before it (C16), so the
+# round-trip checks deliberately interleave FAILING operations with the cases
+# they judge: corrupted variants of the very frame that is about to be
+# decoded, refused encodes of the very table that is about to be encoded
+# (then repaired in place and retried).  Everything executed is logged so a
+# witness can carry the history that led to it.
+
+HISTORY = []            # ('d', bytes) failed/any decode, ('e', value) encode
+HISTORY_CAP = 4000
+
+
+def _log(kind, v):
+    if len(HISTORY) < HISTORY_CAP:
+        HISTORY.append((kind, v))
+
+
+def replay_history(prefix):
+    """Re-run a recorded disturbance history (replay of a witness)."""
+    from pamqp import encode
+    for kind, v in prefix or ():
+        if kind == 'd':
+            lib_unmarshal(v)
+        else:
+            call(encode.field_table, v)
+
+
+def with_history(case):
+    c = dict(case)
+    c['prefix'] = [list(x) for x in HISTORY]
+    return c
+
+
+def corrupt_variants(data, rnd, k=3):
+    """A few malformed relatives of a valid frame, envelope kept consistent
+    so the failure happens deep inside the decoder."""
+    data = bytes(data)
+    if len(data) < 10 or data[:4] == b'AMQP':
+        return []
+    ftype, ch, size = struct.unpack('>BHI', data[:7])
+    payload = data[7:-1]
+    out = []
+    n = len(payload)
+    for _ in range(k):
+        r = rnd.random()
+        if r < 0.4 and n > 1:
+            cut = rnd.randint(max(0, n - 12), n - 1) if rnd.random() < 0.6 \
+                else rnd.randint(0, n - 1)
+            p = payload[:cut]
+        elif r < 0.7 and n:
+            i = rnd.randrange(n // 2, n) if n > 1 else 0
+            p = payload[:i] + bytes([rnd.choice([0xFF, 0x07, 0x80, 0xC3])]) \
+                + payload[i + 1:]
+        elif n > 4:
+            i = rnd.randrange(n)
+            p = payload[:i] + payload[i + rnd.randint(1, 4):]
+        else:
+            p = payload + b'\x00'
+        out.append(struct.pack('>BHI', ftype, ch, len(p)) + p + b'\xce')
+    return out
+
+
+_DEEP_FAULTS = []
+
+
+def disturb_decoder(data, rnd, k=3):
+    """Decode corrupted relatives of `data` (outcomes ignored, under the
+    safety budget) - before the valid frame itself is decoded.  Now and then
+    the failure is a DEEP one: a frame nested 48 levels with a fault at the
+    innermost level, so that whatever the decoder tracks per nesting level
+    is abandoned 48 levels up."""
+    for v in corrupt_variants(data, rnd, k):
+        _log('d', v)
+        lib_unmarshal(v)
+    if rnd.random() < 0.06:
+        if not _DEEP_FAULTS:
+            from ..gen import faults
+            _DEEP_FAULTS.extend(b for b, _ in faults.deep_fault_frames(
+                random.Random(48), 48))
+        v = rnd.choice(_DEEP_FAULTS)
+        _log('d', v)
+        lib_unmarshal(v)
+
+
+POISON = None
+
+
+def poison_values():
+    global POISON
+    if POISON is None:
+        import decimal
+        POISON = [decimal.Decimal('NaN'), 1e39, 2**70,
+                  decimal.Decimal('1E-300'), decimal.Decimal(2**40),
+                  ('tuple',), b'bytes', object, {'k' * 300: 1},
+                  {1: 2}, {'\ud800': 1}]
+    return POISON
+
+
+def fail_then_retry_table(table, rnd):
+    """Make the caller's own dict unencodable, try to encode it (refused),
+    repair it in place.  The *same object* is encoded for real afterwards."""
+    from pamqp import encode
+    if not isinstance(table, dict):
+        return
+    # poison at a random depth
+    target = table
+    for _ in range(3):
+        subs = [v for v in target.values() if isinstance(v, dict)]
+        if subs and rnd.random() < 0.5:
+            target = rnd.choice(subs)
+    key = '\x7fpoison'
+    target[key] = rnd.choice(poison_values())
+    try:
+        import copy
+        _log('e', copy.deepcopy(table))
+    except Exception:
+        pass
+    call(encode.field_table, table)
+    del target[key]
+
+
+RND = random.Random(0xD15707B)       # per-worker disturbance choices
+
+
+def mutate_in_place(obj):
+    """Caller-side change of a table / list in place (no attribute is
+    assigned).  Returns True if something was changed."""
+    if isinstance(obj, dict):
+        for v in obj.values():
+            if isinstance(v, list):
+                v.append('added-in-place')
+                return True
+            if isinstance(v, dict):
+                v['added-in-place'] = 7
+                return True
+        obj['added-in-place'] = 7
+        return True
+    if isinstance(obj, list):
+        obj.append('added-in-place')
+        return True
+    return False
+
+
+class H:
+    """A case that, when written out as a witness, carries the history of
+    interleaved failing operations that preceded it (built lazily)."""
+
+    def __init__(self, case):
+        self.case = case
+
+    def __vmon_case__(self):
+        return with_history(self.case)
+
+    def __getitem__(self, k):
+        return self.case[k]
+
+    def get(self, k, d=None):
+        return self.case.get(k, d)
+
+
+def has_decimal(v):
+    import decimal
+    if isinstance(v, decimal.Decimal):
+        return True
+    if isinstance(v, dict):
+        return any(has_decimal(x) for x in v.values())
+    if isinstance(v, (list, tuple)):
+        return any(has_decimal(x) for x in v)
+    return False
+
+
+NARROW_CONTEXTS = None
+
+
+def narrow_contexts():
+    """Decimal contexts a caller may legitimately have installed."""
+    global NARROW_CONTEXTS
+    if NARROW_CONTEXTS is None:
+        import decimal
+        NARROW_CONTEXTS = [
+            decimal.Context(prec=4, rounding=decimal.ROUND_DOWN),
+            decimal.Context(prec=6),
+            decimal.BasicContext.copy(), decimal.ExtendedContext.copy(),
+            decimal.Context(prec=2, rounding=decimal.ROUND_UP, Emax=9,
+                            Emin=-9, traps=[]),
+        ]
+    return NARROW_CONTEXTS
+
+
+def encode_under_context(fn, v, ctx):
+    """fn(v) with `ctx` as the thread's decimal context."""
+    import decimal
+    with decimal.localcontext(ctx):
+        return call(fn, v)
+
+
+ALL_CONFIGS = [W_ERROR, LOG_DEBUG, PY_O]
+
+
+def disturb_encoder(rnd, k=2):
+    """A few frame.marshal calls that are refused half-way (bad payload
+    type, bad channel, hostile argument) - whatever they leave behind must
+    not reach the next frame."""
+    from pamqp import body, commands, frame, header
+    for _ in range(k):
+        r = rnd.randrange(7)
+        try:
+            if r == 0:
+                obj, ch = body.ContentBody('a str, not bytes'), 1
+            elif r == 1:
+                obj, ch = body.ContentBody(b'ok'), rnd.choice([70000, -1])
+            elif r == 2:
+                obj, ch = commands.Basic.Ack(2**70), 1
+            elif r == 3:
+                obj, ch = commands.Basic.Publish(routing_key='x' * 300), 1
+            elif r == 4:
+                obj, ch = header.ContentHeader(0, -1), 1
+            elif r == 5:
+                obj, ch = header.ContentHeader(
+                    0, 1, commands.Basic.Properties(priority=300)), 1
+            else:
+                obj, ch = commands.Queue.Declare(
+                    arguments={'k': {'n': 2**70}}), 'x'
+        except Exception:
+            continue
+        call(frame.marshal, obj, ch)
